@@ -179,6 +179,20 @@ fn mean_ci<F: Fl>(case: &Value) -> Value {
                     "ops" => <$T<F> as StatisticsOps<F>>::ci(conf, &a),
                     "meanci" => <$T<F> as MeanCI<F>>::ci(conf, &a),
                     "from_iter" => { let s = $T::<F>::from_iter(&a)?; reg = Some(s); s.ci_mean(conf) }
+                    // everything through the StatisticsOps TRAIT (what code generic over `S: StatisticsOps<F>` reaches;
+                    // method-call syntax on a concrete value prefers an inherent method of the same name)
+                    "ops_mean" => {
+                        let mut s = <$T<F> as Default>::default();
+                        let r = <$T<F> as StatisticsOps<F>>::extend(&mut s, &a);
+                        reg = Some(s); r?;
+                        <$T<F> as StatisticsOps<F>>::ci_mean(&s, conf)
+                    }
+                    "ops_append" => {
+                        let mut s = <$T<F> as StatisticsOps<F>>::from_iter(&Vec::<F>::new())?;
+                        for x in &a { if let Err(e) = <$T<F> as StatisticsOps<F>>::append(&mut s, *x) { reg = Some(s); return Err(e); } }
+                        reg = Some(s);
+                        <$T<F> as StatisticsOps<F>>::ci_mean(&s, conf)
+                    }
                     "extend" => { let mut s = $T::<F>::new(); let r = s.extend(&a); reg = Some(s); r?; s.ci_mean(conf) }
                     "append" => {
                         let mut s = $T::<F>::default();
@@ -206,9 +220,15 @@ fn mean_ci<F: Fl>(case: &Value) -> Value {
                 reg = Some(s);
             }
             let s = reg.unwrap();
-            stats["count"] = json!(s.sample_count());
-            stats["mean"] = stat(|| s.sample_mean());
-            stats["sem"] = stat(|| s.sample_sem());
+            if style.starts_with("ops") {
+                stats["count"] = json!(<$T<F> as StatisticsOps<F>>::sample_count(&s));
+                stats["mean"] = stat(|| <$T<F> as StatisticsOps<F>>::sample_mean(&s));
+                stats["sem"] = stat(|| <$T<F> as StatisticsOps<F>>::sample_sem(&s));
+            } else {
+                stats["count"] = json!(s.sample_count());
+                stats["mean"] = stat(|| s.sample_mean());
+                stats["sem"] = stat(|| s.sample_sem());
+            }
             out
         }};
     }
